@@ -86,7 +86,7 @@ def fast_polynomial(x, coeffs, reverse=False, scheme=None, _N=None):
     if d == 0:
         # evaluate reduced polynomial as it is
         s = coeffs[0]
-        for i in range(1, N):
+        for i in range(1, N + 1):
             s += coeffs[i] * fast_exponent_by_squaring(x, i)
         return s
 
